@@ -30,6 +30,9 @@ def correspondence(ctx):
         h = hexs([ctx.rng.choice(alpha + zs) for _ in range(n)])
         cases.append(f'rules|nick|addmap|{h}')
         cases.append(f'rules|op|addmap|{h}')
+    for s_ in long_strings(ctx, alpha + zs, (60 if ctx.tier == 'quick' else 3000)):
+        cases.append(f'rules|nick|addmap|{hexs(s_)}')
+        cases.append(f'rules|op|addmap|{hexs(s_)}')
     res = run_cases(cases, ctx.work)
     zset = set(zs)
 
